@@ -71,13 +71,16 @@ func (mbp *multipartBodyProcessor) ProcessRequest(reader io.Reader, v plugintype
 					v.MultipartStrictError().(*collections.Single).Set("1")
 					return err
 				}
-				defer temp.Close()
 				// Record the temporary file right away so that it is removed when the
 				// transaction is closed even if copying the upload fails.
 				filesTmpNamesCol.Add("", temp.Name())
 				sz, err := io.Copy(temp, p)
 				if verifhook.Enabled {
 					err = verifhook.FaultOr("multipart.copy", err)
+				}
+				// The file is complete only once it has been closed successfully.
+				if cerr := temp.Close(); cerr != nil && (err == nil || errors.Is(err, io.ErrUnexpectedEOF)) {
+					err = cerr
 				}
 				if err != nil {
 					if !errors.Is(err, io.ErrUnexpectedEOF) {
